@@ -1,11 +1,231 @@
-(* C14 — property theorems (thin first stage). *)
+(* C14 — property theorems only.  [wrap]/[peel]/[peel_chain] (Part A) and [rstep]/[rrun] (Part B) are the executable
+   model of C14/Model.v, the same functions the correspondence C14/Corr.v runs against the real outbound
+   dispatcher, packagers and mediator service; [pack]/[unpack_pkgr] are C01's. *)
 From Coq Require Import List NArith Bool.
 Import ListNotations.
-From VF Require Import C14.Model.
+From VF Require Import C01.Model C01.Proofs C14.Model C14.Proofs.
 Local Open Scope N_scope.
 
-Theorem route_takeover_observed :
-  snd (rrun [] [RUpdate 1 [(AAdd, 5)] None true; RUpdate 2 [(AAdd, 5)] None true; RForward 5 7 true false])
-  = [OResp 1 [(5, AAdd, RSuccess)] true; OResp 2 [(5, AAdd, RSuccess)] true; ORelay 2 7].
+(* ------------------------------------------------------------------------------------------------------------
+   FULL STATEMENT, part 1 (unwrapping in order delivers exactly the original message; each hop sees the next key).
+   For every packer configuration, profile, payload, sender, recipient list, and every list of routing keys of
+   ANY length: if the dispatcher's Send succeeded (outer = the bytes given to the transport), and the mediators
+   unwrap in order (parties = holders of routing keys n, n-1, .., 1), then hop i obtains an anonymous forward whose
+   'to' is exactly the key of hop i-1 (the recipient's first key for the last mediator) in the form the profile
+   prescribes, the envelope leaving the last mediator is exactly the envelope the sender packed for the recipients,
+   and every holder of a recipient key unpacks from it exactly the original payload with the true sender key. *)
+Theorem peel_all : forall c pf spar payload sender rcpts routing rn outer ls parties,
+  wrap FFixed c pf spar payload sender rcpts routing rn = Ok (outer, ls) ->
+  Forall2 (fun p h => In (h_key h) p) parties (rev routing) ->
+  exists r0 w0, hd_error rcpts = Some r0 /\ pack c spar (pay_id payload) sender rcpts rn = Ok w0 /\
+    peel_chain ls parties outer
+      = Ok (map (to_ref (style_of c) pf) (rev (removelast (r0 :: map h_key routing))), w0) /\
+    forall party, (exists k, In k rcpts /\ In k party) ->
+      exists k, In k rcpts /\ In k party /\
+        peel ls party w0 = Ok (PMsg payload, expect_from (packer_of c) sender, k).
+Proof.
+  intros c pf spar payload sender rcpts routing rn outer ls parties Hw HF.
+  unfold wrap in Hw. destruct rcpts as [|r0 rs]; [discriminate|].
+  destruct (pack c spar (pay_id payload) sender (r0 :: rs) rn) as [w0| | |] eqn:Hp; cbn [bind] in Hw; try discriminate.
+  exists r0, w0. split; [reflexivity|]. split; [reflexivity|]. split.
+  - rewrite <- tos_of_explicit.
+    apply (nest_peel c pf routing 0 r0 w0 rn outer ls ls Hw (nest_self _ _ _ _ _ _ _ _ _ _ Hw) parties HF).
+  - intros party Hex. destruct (roundtrip_lemma _ _ _ _ _ _ _ party Hp Hex) as [k [H1 [H2 [_ Hu]]]].
+    exists k. split; [assumption|]. split; [assumption|].
+    unfold peel. rewrite Hu. cbn [bind]. rewrite lookup_pay. reflexivity.
+Qed.
+Print Assumptions peel_all.
+
+(* FULL STATEMENT, part 2 (opaque to mediators).  Whatever variant of the embedding, every layer the dispatcher
+   created opens for a holder of the single key it is addressed to — yielding an anonymous forward (no sender key) —
+   and for NOBODY else: every other party (other mediators, the final recipient, outsiders) gets the
+   not-a-recipient error. *)
+Theorem layer_opens_only_for_addressed : forall v c pf spar payload sender rcpts routing rn outer ls l party,
+  wrap v c pf spar payload sender rcpts routing rn = Ok (outer, ls) -> In l ls ->
+  (In (ly_key l) party -> peel ls party (ly_wire l) = Ok (ly_plain l, None, ly_key l)) /\
+  (~ In (ly_key l) party ->
+     peel ls party (ly_wire l) = Err ENotFound /\ unpack_pkgr Fixed party (ly_wire l) = Err ENotFound).
+Proof.
+  intros v c pf spar payload sender rcpts routing rn outer ls l party Hw Hl.
+  unfold wrap in Hw. destruct rcpts as [|r0 rs]; [discriminate|].
+  destruct (pack c spar (pay_id payload) sender (r0 :: rs) rn) as [w0| | |]; cbn [bind] in Hw; try discriminate.
+  destruct (nest_layers _ _ _ _ _ _ _ _ _ _ Hw l Hl) as [j [kt [rn' [Hid Hp]]]].
+  pose proof (nest_self _ _ _ _ _ _ _ _ _ _ Hw l Hl) as Hlk. rewrite Hid in Hlk. rewrite <- lookup_fwd in Hlk.
+  split; intros H.
+  - eapply peel_layer_open; eassumption.
+  - eapply peel_layer_closed; eassumption.
+Qed.
+Print Assumptions layer_opens_only_for_addressed.
+
+(* what a mediator learns: its layer's plaintext is the forward type, the key of the NEXT hop, and the envelope of
+   the next hop — a function of those two only; the layers are addressed to the routing keys in order, the outermost
+   is what the transport gets; the innermost carries the envelope packed for the recipients, which (C01) nobody
+   without a recipient key opens. *)
+Theorem hop_view : forall v c pf spar payload sender rcpts routing rn outer ls,
+  wrap v c pf spar payload sender rcpts routing rn = Ok (outer, ls) ->
+  exists r0 w0, hd_error rcpts = Some r0 /\ pack c spar (pay_id payload) sender rcpts rn = Ok w0 /\
+    chained v (style_of c) pf r0 w0 ls outer /\ map ly_key ls = map h_key routing /\
+    forall party, (forall k, In k rcpts -> ~ In k party) -> unpack_pkgr Fixed party w0 = Err ENotFound.
+Proof.
+  intros v c pf spar payload sender rcpts routing rn outer ls Hw.
+  unfold wrap in Hw. destruct rcpts as [|r0 rs]; [discriminate|].
+  destruct (pack c spar (pay_id payload) sender (r0 :: rs) rn) as [w0| | |] eqn:Hp; cbn [bind] in Hw; try discriminate.
+  exists r0, w0. split; [reflexivity|]. split; [reflexivity|].
+  destruct (nest_chained _ _ _ _ _ _ _ _ _ _ Hw) as [Hc Hm]. split; [exact Hc|]. split; [exact Hm|].
+  intros party Hno. exact (proj2 (only_recipients_lemma _ _ _ _ _ _ _ party Hp Hno)).
+Qed.
+Print Assumptions hop_view.
+
+(* Send fails exactly when one of the packs fails (C01's pack-side rejections); with no routing keys the
+   transport gets the packed envelope itself *)
+Theorem no_routing_keys_is_plain_pack : forall v c pf spar payload sender rcpts rn,
+  rcpts <> [] ->
+  wrap v c pf spar payload sender rcpts [] rn =
+    bind (pack c spar (pay_id payload) sender rcpts rn) (fun w0 => Ok (w0, [])).
+Proof. intros v c pf spar payload sender [|r0 rs] rn H; [congruence|]. reflexivity. Qed.
+Print Assumptions no_routing_keys_is_plain_pack.
+
+(* HISTORICAL REFUTATION (before fix: 77f86fc).  With the embedding as found — through model.Envelope — a message
+   for two recipient keys sent over one mediator cannot be unpacked by the recipient; the repaired code delivers. *)
+Theorem peel_all_asis_refuted :
+  exists c pf spar payload sender rcpts routing rn,
+    (exists outer ls w', wrap FAsIs c pf spar payload sender rcpts routing rn = Ok (outer, ls) /\
+       peel_chain ls [[9]] outer = Ok ([TDidKey 5], w') /\ peel ls [5] w' = Err ENotFound) /\
+    (exists outer ls w', wrap FFixed c pf spar payload sender rcpts routing rn = Ok (outer, ls) /\
+       peel_chain ls [[9]] outer = Ok ([TDidKey 5], w') /\ peel ls [5] w' = Ok (PMsg payload, None, 5)).
+Proof.
+  exists (mkcfg JweAnon X25519 XC20P DidKey), PV2, [1], 77, 0, [5; 6], [mkhop 9 X25519], (mkrnd 100 200 300).
+  split; eexists; eexists; eexists; (split; [vm_compute; reflexivity|]); split; vm_compute; reflexivity.
+Qed.
+Print Assumptions peel_all_asis_refuted.
+
+(* ------------------------------------------------------------------------------------------------------------
+   FULL STATEMENT, part 3 (the mediator relays to the registrant and to nobody else).  [registrant h k] is computed
+   from the history alone: the client of the most recent successful "add" of k (a failed store write registers
+   nothing, "remove" is answered server_error and removes nothing).  In the state reached by ANY history of keylist
+   updates (any clients, any number of entries, any single failing store write, any response-send outcome) and
+   forwards, a forward for key k is relayed to the registrant of k, or — when the outbound transport fails — held
+   for pickup by that same agent; when nobody registered k nothing is handed to anybody. *)
+Theorem forward_goes_to_registrant : forall hist to m ok,
+  rstep (fst (rrun [] hist)) (RForward to m ok false) =
+    (fst (rrun [] hist),
+     match registrant hist to with
+     | Some d => if ok then ORelay d m else OHeld d m
+     | None => ODrop
+     end).
+Proof. intros hist to m ok. apply forward_step. intros k. apply (rrun_get k hist []). Qed.
+Print Assumptions forward_goes_to_registrant.
+
+(* the same for whole histories, as the boolean the violation search evaluates: every forward of the history has
+   exactly one delivery — to the registrant at that moment, of exactly the forwarded message — or none when there is
+   no registrant or the store read fails; keylist updates deliver nothing *)
+Theorem route_exact : forall ops, route_exact_b ops = true.
+Proof. intros ops. apply route_exact_gen. intros k. reflexivity. Qed.
+Print Assumptions route_exact.
+
+(* no operation hands a message to two agents *)
+Theorem at_most_one_delivery : forall s o, (length (deliveries (snd (rstep s o))) <= 1)%nat.
+Proof.
+  intros s o. destruct o as [client ups f ok|to m ok fget]; cbn [rstep].
+  - destruct (apply_updates s client ups f 0). cbn. auto.
+  - destruct fget; [cbn; auto|]. destruct (route_get s to); [destruct ok|]; cbn; auto.
+Qed.
+Print Assumptions at_most_one_delivery.
+
+(* a keylist update changes the route of the keys it successfully adds and of no other key *)
+Theorem update_touches_only_its_keys : forall s client ups f ok k,
+  (forall a, ~ In (a, k) ups) ->
+  route_get (fst (rstep s (RUpdate client ups f ok))) k = route_get s k.
+Proof.
+  intros s client ups f ok k Hno. rewrite rstep_get. cbn [registrant_from].
+  generalize 0%nat. generalize (route_get s k). induction ups as [|[a k'] ups IH]; intros cur i; [reflexivity|].
+  assert (Hk : (k =? k') = false).
+  { destruct (k =? k') eqn:E; [|reflexivity]. apply N.eqb_eq in E. subst. exfalso. apply (Hno a). left; reflexivity. }
+  assert (Hno' : forall a0, ~ In (a0, k) ups) by (intros a0 Hi; apply (Hno a0); right; exact Hi).
+  destruct a; cbn [reg_updates]; [destruct (fails_put f i); [|rewrite Hk]| |]; apply (IH Hno').
+Qed.
+Print Assumptions update_touches_only_its_keys.
+
+(* OBSERVATION (not claimed as a violation, DESIGN 7 C14): a later registration of an already registered key by
+   another client takes the route over; "remove" does not remove. *)
+Theorem takeover_and_remove_observed :
+  snd (rrun [] [RUpdate 1 [(AAdd, 5)] None true; RForward 5 7 true false;
+                RUpdate 2 [(AAdd, 5)] None true; RForward 5 8 true false;
+                RUpdate 2 [(ARemove, 5)] None true; RForward 5 9 false false])
+  = [OResp 1 [(5, AAdd, RSuccess)] true; ORelay 1 7;
+     OResp 2 [(5, AAdd, RSuccess)] true; ORelay 2 8;
+     OResp 2 [(5, ARemove, RServerError)] true; OHeld 2 9].
 Proof. vm_compute. reflexivity. Qed.
-Print Assumptions route_takeover_observed.
+Print Assumptions takeover_and_remove_observed.
+
+(* ------------------------------------------------------------------------------------------------------------
+   END TO END: one mediator.  The recipient (client d) registered the key string the profile makes the dispatcher
+   address; the mediator unwraps the transport bytes, looks the 'to' up and relays the inner envelope to d, who
+   unpacks exactly the original payload. *)
+Definition tref_id (t : tref) : N :=
+  match t with TDidKey k => 3 * k | TB58 k => 3 * k + 1 | TDoc k => 3 * k + 2 end.
+
+Theorem routed_end_to_end : forall c pf spar payload sender rcpts r0 hopk rn outer ls hist d med rcp m,
+  wrap FFixed c pf spar payload sender rcpts [hopk] rn = Ok (outer, ls) ->
+  hd_error rcpts = Some r0 -> In (h_key hopk) med -> In r0 rcp ->
+  registrant hist (tref_id (to_ref (style_of c) pf r0)) = Some d ->
+  exists to inner k,
+    peel ls med outer = Ok (PFwd (is_v2 pf) to inner, None, h_key hopk) /\
+    snd (rstep (fst (rrun [] hist)) (RForward (tref_id to) m true false)) = ORelay d m /\
+    In k rcpts /\ In k rcp /\ peel ls rcp inner = Ok (PMsg payload, expect_from (packer_of c) sender, k).
+Proof.
+  intros c pf spar payload sender rcpts r0 hopk rn outer ls hist d med rcp m Hw Hhd Hmed Hrcp Hreg.
+  destruct (peel_all c pf spar payload sender rcpts [hopk] rn outer ls [med] Hw) as [r0' [w0 [Hhd' [Hp [Hc Hfin]]]]].
+  { cbn [rev app]. constructor; [exact Hmed|constructor]. }
+  rewrite Hhd in Hhd'. inversion Hhd'; subst r0'.
+  cbn [map removelast rev app peel_chain] in Hc.
+  destruct (peel ls med outer) as [[[pl from] to']| | |] eqn:Epl; cbn [bind] in Hc; try discriminate.
+  destruct pl as [|v2 t inner]; try discriminate. destruct from; try discriminate.
+  cbn [peel_chain bind] in Hc. inversion Hc; subst t inner.
+  destruct (Hfin rcp) as [k [Hk1 [Hk2 Hk3]]].
+  { exists r0. split; [|exact Hrcp]. destruct rcpts; inversion Hhd; subst. left; reflexivity. }
+  exists (to_ref (style_of c) pf r0), w0, k.
+  pose proof (layer_opens_only_for_addressed FFixed c pf spar payload sender rcpts [hopk] rn outer ls) as Hlay.
+  destruct (hop_view _ _ _ _ _ _ _ _ _ _ _ Hw) as [r0' [w0' [Hhd'' [Hp' [Hch [Hkeys _]]]]]].
+  rewrite Hhd in Hhd''. inversion Hhd''; subst r0'. rewrite Hp in Hp'. inversion Hp'; subst w0'.
+  destruct ls as [|l [|l2 ls]]; cbn [map] in Hkeys; try discriminate. inversion Hkeys as [Hkey].
+  cbn [chained] in Hch. destruct Hch as [Hpl Hout]. subst outer.
+  destruct (Hlay l med Hw (or_introl eq_refl)) as [Hopen _]. rewrite Hkey in Hopen. specialize (Hopen Hmed).
+  rewrite Hopen in Epl. inversion Epl; subst. rewrite Hpl. cbn [embed].
+  split; [rewrite Hkey; reflexivity|]. split; [|split; [exact Hk1|split; [exact Hk2|exact Hk3]]].
+  rewrite forward_goes_to_registrant. cbn [snd]. rewrite Hreg. reflexivity.
+Qed.
+Print Assumptions routed_end_to_end.
+
+(* ------------------------------------------------------------------------------------------------------------
+   non-vacuity *)
+Example peel_all_nonvacuous :
+  (* authcrypt JWE for three recipient keys (two parties), four routing keys of mixed types, v2 forwards *)
+  match wrap FFixed (mkcfg JweAuth P256 A256CBC512 DidKey) PV2 [1; 2] 77 1 [5; 6; 7]
+             [mkhop 11 P256; mkhop 12 X25519; mkhop 13 P384; mkhop 14 P256] (mkrnd 100 200 300) with
+  | Ok (outer, ls) =>
+      length ls = 4%nat /\
+      (exists w0, peel_chain ls [[14]; [13; 40]; [12]; [11]] outer = Ok ([TDidKey 13; TDidKey 12; TDidKey 11; TDidKey 5], w0) /\
+                  peel ls [6; 7] w0 = Ok (PMsg 77, Some 1, 6) /\ peel ls [11; 12; 13; 14; 1; 2] w0 = Err ENotFound) /\
+      peel ls [13] outer = Err ENotFound /\ peel ls [5; 6; 7] outer = Err ENotFound /\
+      peel_chain ls [[14]; [12]] outer = Err ENotFound
+  | _ => False
+  end.
+Proof. vm_compute. split; [reflexivity|]. split; [eexists; repeat split|repeat split]. Qed.
+
+Example peel_all_nonvacuous_legacy :
+  (* legacy authcrypt under the IndyAgent profile: did:key destinations are named in base58 in 'to' *)
+  match wrap FFixed (mkcfg LegAuth Ed25519 XC20P DidKey) PIndy [1] 3 1 [5] [mkhop 11 Ed25519; mkhop 12 Ed25519] (mkrnd 100 200 300) with
+  | Ok (outer, ls) =>
+      exists w0, peel_chain ls [[12]; [11]] outer = Ok ([TB58 11; TB58 5], w0) /\ peel ls [5] w0 = Ok (PMsg 3, Some 1, 5)
+  | _ => False
+  end.
+Proof. vm_compute. eexists. split; reflexivity. Qed.
+
+Example route_exact_nonvacuous :
+  let ops := [RUpdate 1 [(AAdd, 5); (AAdd, 6)] (Some 1%nat) true; RUpdate 2 [(AAdd, 6); (AOther, 5)] None false;
+              RForward 5 7 true false; RForward 6 8 false false; RForward 9 1 true false; RForward 5 2 true true] in
+  snd (rrun [] ops) = [OResp 1 [(5, AAdd, RSuccess); (6, AAdd, RServerError)] true; OResp 2 [(6, AAdd, RSuccess)] false;
+                       ORelay 1 7; OHeld 2 8; ODrop; ODrop] /\
+  registrant (firstn 2 ops) 6 = Some 2 /\ registrant (firstn 2 ops) 9 = None.
+Proof. vm_compute. repeat split. Qed.
